@@ -194,8 +194,8 @@ def findCycle (ns : List Node) : DfsRes :=
 
 /-! ### detectOutputConflicts -/
 
-/-- `getAncestorSet`: iterative search over `GetDependencies`, `set` = labels seen.
-    (The memo table of the Go code only short-cuts this search; it is not modelled.) -/
+/-- `getAncestorSet` without its memo table: iterative search over `GetDependencies`, `set` = labels
+    seen. (Reference version; the version with the memo table is `ancLoopC` below.) -/
 def ancLoop (pred : Label → List Label) : Nat → List Label → List Label → List Label
   | 0, _, set => set
   | _ + 1, [], set => set
@@ -250,13 +250,91 @@ def hasConflict (cfg : Cfg) (ns : List Node) : Bool :=
   || (dirRecs ts).any fun d => (fileRecs ts).any fun f =>
         unord d f && pathWithin cfg.dotRoot f.path d.path
 
+/-! #### the same with the memo table of `getAncestorSet` (what the code does)
+
+`hasConflict` above is the memo-free reference; `hasConflictC` threads the `ancestorCache` of
+`detectOutputConflicts` through all `targetsAreOrdered` queries in the order of the four loops.
+(The per-tag / per-path groups are visited in map order by the Go code; the order of the queries only
+changes the contents of the memo table, never an answer — theorem `hasConflictC_eq`.) -/
+
+/-- `ancestorCache`: label ↦ ancestor set -/
+abbrev Cache := List (Label × List Label)
+
+def cacheGet (c : Cache) (l : Label) : Option (List Label) :=
+  match c.find? (fun e => e.1 == l) with
+  | some e => some e.2
+  | none => none
+
+/-- the loop of `getAncestorSet`: a popped node is marked; if its set is memoised the whole set is
+    added and the node is not expanded -/
+def ancLoopC (pred : Label → List Label) (cache : Cache) : Nat → List Label → List Label → List Label
+  | 0, _, set => set
+  | _ + 1, [], set => set
+  | f + 1, x :: st, set =>
+    if x ∈ set then ancLoopC pred cache f st set
+    else match cacheGet cache x with
+      | some anc => ancLoopC pred cache f st (anc ++ x :: set)
+      | none => ancLoopC pred cache f (pred x ++ st) (x :: set)
+
+/-- `getAncestorSet(graph, node, cache)` -/
+def getAncestorSet (ns : List Node) (cache : Cache) (a : Label) : List Label × Cache :=
+  match cacheGet cache a with
+  | some s => (s, cache)
+  | none =>
+    let s := ancLoopC (preds ns) cache (ancFuel ns) (preds ns a) []
+    (s, (a, s) :: cache)
+
+/-- `targetsAreOrdered(graph, a, b, ancestorCache)` -/
+def orderedC (cfg : Cfg) (ns : List Node) (cache : Cache) (a b : Label) : Bool × Cache :=
+  if cfg.skipSelf && a == b then (true, cache)
+  else
+    let r1 := getAncestorSet ns cache a
+    if r1.1.contains b then (true, r1.2)
+    else
+      let r2 := getAncestorSet ns r1.2 b
+      (r2.1.contains a, r2.2)
+
+/-- inner loop: `x` against every later record; state = (conflict found, memo table) -/
+def rowC {α : Type} (q : Cache → α → α → Bool × Cache) (x : α) (ys : List α) (st : Bool × Cache) : Bool × Cache :=
+  ys.foldl (fun st y => let r := q st.2 x y; (st.1 || r.1, r.2)) st
+
+/-- `for i … for j := i+1 …` with state -/
+def pairsC {α : Type} (q : Cache → α → α → Bool × Cache) : List α → Bool × Cache → Bool × Cache
+  | [], st => st
+  | x :: xs, st => pairsC q xs (rowC q x xs st)
+
+/-- records with the same key (tag / cleaned path) whose owners are not ordered -/
+def sameKeyC (cfg : Cfg) (ns : List Node) (c : Cache) (r s : Rec) : Bool × Cache :=
+  if r.path == s.path then
+    let o := orderedC cfg ns c r.owner s.owner
+    (!o.1, o.2)
+  else (false, c)
+
+def dirDirC (cfg : Cfg) (ns : List Node) (c : Cache) (r s : Rec) : Bool × Cache :=
+  let o := orderedC cfg ns c r.owner s.owner
+  (!o.1 && pathsOverlap cfg.dotRoot r.path s.path, o.2)
+
+def dirFileC (cfg : Cfg) (ns : List Node) (c : Cache) (d f : Rec) : Bool × Cache :=
+  let o := orderedC cfg ns c d.owner f.owner
+  (!o.1 && pathWithin cfg.dotRoot f.path d.path, o.2)
+
+/-- `detectOutputConflicts(graph) != nil` -/
+def hasConflictC (cfg : Cfg) (ns : List Node) : Bool :=
+  let ts := targetsOf ns
+  let st0 : Bool × Cache := (false, [])
+  let st1 := pairsC (sameKeyC cfg ns) (dockerRecs ts) st0
+  let st2 := pairsC (sameKeyC cfg ns) (fileRecs ts) st1
+  let st3 := pairsC (dirDirC cfg ns) (dirRecs ts) st2
+  let st4 := (dirRecs ts).foldl (fun st d => rowC (dirFileC cfg ns) d (fileRecs ts) st) st3
+  st4.1
+
 /-- `BuildGraph(nodes)`: `none` = a graph is returned -/
 def buildGraph (cfg : Cfg) (ns : List Node) : Option Kind :=
   match edgeErrors ns with
   | some k => some k
   | none =>
     match findCycle ns with
-    | .ok _ => if hasConflict cfg ns then some Kind.conflict else none
+    | .ok _ => if hasConflictC cfg ns then some Kind.conflict else none
     | _ => some Kind.cycle
 
 /-! ### CheckTargetConstraints -/
